@@ -4,8 +4,9 @@
 
    Reading of the property on the event sequence of an emitted program (Model/XRef.v, [events]):
    a section is what follows one Metrics.beginCollect up to the next one; [prog_ok n l] says that
-   nothing (no event, no loop) precedes the first section, that there are exactly n sections (n = the
-   number of Einsums), and that every section is [sec_ok]: closed by exactly one endCollect at nesting
+   nothing but intersector creations (no other event, no loop) precedes the first section, that there are exactly n sections (n = the
+   number of Einsums; intersector creations may stand between a dump and the next beginCollect and are carried
+   over to the section they precede), and that every section is [sec_ok]: closed by exactly one endCollect at nesting
    depth 0 after every loop; every file handed to Traffic.buffetTraffic/cacheTraffic (through the traces
    dictionary), Traffic.filterTrace (inputs), Compute.numIters, and every Metrics.consumeTrace(rank, type)
    is produced by an EARLIER event of the same section - a Metrics.trace(rank, type_=type) inside the
@@ -22,7 +23,7 @@ Import ListNotations.
 Theorem C12_checker_iff : forall n l, prog_failures n l = [] <-> prog_ok n l.
 Proof. exact prog_failures_nil_iff. Qed.
 
-Theorem C12_section_checker_iff : forall p body, sec_failures p body = [] <-> sec_ok p body.
+Theorem C12_section_checker_iff : forall p c body, sec_failures p c body = [] <-> sec_ok p c body.
 Proof. exact sec_failures_nil_iff. Qed.
 
 (* sections: the event sequence is the preamble followed by the sections, each opened by its own
@@ -33,35 +34,40 @@ Theorem C12_sections : forall l,
   /\ Forall (fun s => no_begin (snd s)) (snd (split_secs l)).
 Proof. exact split_secs_spec. Qed.
 
+(* the creations a section inherits are exactly the Create events that end the preceding segment *)
+Theorem C12_carry : forall l, exists a, l = a ++ carry l /\ (forall e, In e (carry l) -> is_create e = true)
+  /\ match rev a with [] => True | e :: _ => is_create e = false end.
+Proof. exact carry_spec. Qed.
+
 (* "closed exactly once after its loop nest" *)
-Theorem C12_window : forall p body, sec_ok p body ->
+Theorem C12_window : forall p c body, sec_ok p c body ->
   exists mid post, body = mid ++ End :: post /\ ~ In End mid /\ ~ In End post
                    /\ (forall e, In e post -> is_marker e = false) /\ depth mid 0 = Some 0.
 Proof. exact ok_window. Qed.
 
 (* "every trace file name handed to the traffic ... model is produced earlier in the same section by a
    registration with the same prefix, rank and trace type or by an emitted filter step" *)
-Theorem C12_traffic_file_produced : forall p body a fs b f,
-  sec_ok p body -> body = a ++ Traffic fs :: b -> In f fs ->
+Theorem C12_traffic_file_produced : forall p c body a fs b f,
+  sec_ok p c body -> body = a ++ Traffic fs :: b -> In f fs ->
   (exists r lab, In (Reg r lab) (window a) /\ f = fname p r lab /\ (is_eager lab = true -> In (Emit lab) (window a)))
   \/ (exists i fl, In (Filter i fl f) a).
 Proof. exact ok_traffic_file_produced. Qed.
 
-Theorem C12_filter_inputs_produced : forall p body a i fl o b,
-  sec_ok p body -> body = a ++ Filter i fl o :: b -> produced p a (NFile i) /\ produced p a (NFile fl).
+Theorem C12_filter_inputs_produced : forall p c body a i fl o b,
+  sec_ok p c body -> body = a ++ Filter i fl o :: b -> produced p a (NFile i) /\ produced p a (NFile fl).
 Proof. exact ok_filter_inputs_produced. Qed.
 
-Theorem C12_sequencer_file_produced : forall p body a f b,
-  sec_ok p body -> body = a ++ NumIters f :: b -> produced p a (NFile f).
+Theorem C12_sequencer_file_produced : forall p c body a f b,
+  sec_ok p c body -> body = a ++ NumIters f :: b -> produced p a (NFile f).
 Proof. exact ok_numiters_produced. Qed.
 
-Theorem C12_intersector_trace_registered : forall p body a r lab b,
-  sec_ok p body -> body = a ++ Consume r lab :: b -> In (Reg r lab) (window a).
+Theorem C12_intersector_trace_registered : forall p c body a r lab b,
+  sec_ok p c body -> body = a ++ Consume r lab :: b -> In (Reg r lab) (window a).
 Proof. exact ok_consume_registered. Qed.
 
 (* "every intersector model queried in the dump was created before the loops and fed inside them" *)
-Theorem C12_intersector_created_fed : forall p body x,
-  sec_ok p body -> In (Query x) body -> created x body /\ fed x (window body).
+Theorem C12_intersector_created_fed : forall p c body x,
+  sec_ok p c body -> In (Query x) body -> created x (c ++ body) /\ fed x (window body).
 Proof. exact ok_query_created_fed. Qed.
 
 (* ---- the two derivations of trace names inside the compiler (Model/TraceNames.v) ----------------- *)
